@@ -526,6 +526,9 @@ fn check_open_matches(img: &Img, face: Face, pol: &Policy, ctx: &mut Ctx) -> V<(
         ensure!(stored_coord_ok(st[i], o.coords[i]), "C03:coordinate", "stored coordinate {}e-7 reported as {:?}", st[i], o.coords[i]);
     }
     ensure!(pm.meta_data == img.meta, "C03:metadata", "metadata not reported as stored");
+    // the same content must come back after a lookup was disturbed by a transient stream failure
+    // or a cancelled request
+    disturbed_lookups("C03", &mut pm, &handle, h.data_offset, &img.addr, &img.expected, &want, face, &mut rng, 2, false, ctx)?;
     ctx.absorb(&handle);
     drop(pm);
 
@@ -852,42 +855,9 @@ impl Scenario for LazyOpen {
                 }
             }
         }
-        // a transient failure during one lookup must not disturb the lookups that follow: the
-        // failed call may return an error, the next ones read exactly their own range again
-        if !ids.is_empty() {
-            for round in 0..3u64 {
-                // a successful lookup first: its end position is what a stale cursor cache would hold
-                let prev = ids[rng.usize_below(ids.len())];
-                let prev_end = img.addr.get(&prev).map(|(o, l)| o + u64::from(*l));
-                let _ = sut::get(&mut pm, prev, c.face)?;
-                let id = ids[rng.usize_below(ids.len())];
-                let Some(&(off, len)) = img.addr.get(&id) else { continue };
-                let at = handle.nops() + rng.below(4);
-                handle.set_fault(crate::disk::Fault::Transient { at, n: 1 });
-                let r = sut::get(&mut pm, id, c.face)?;
-                handle.set_fault(crate::disk::Fault::None);
-                ctx.bump("fired_transient_timeouts", 1);
-                if let Ok(Some(b)) = &r {
-                    ensure!(Some(b) == img.expected.get(&id), "C20:lookup-bytes", "lookup of tile {id} (transient fault round {round}) returned the wrong bytes");
-                }
-                // follow-ups: the tile stored right behind it, the same tile, and one more
-                let end = off + u64::from(len);
-                let behind = |e: u64| img.addr.iter().find(|(i, (o, _))| *o == e && c.range.contains(**i)).map(|(i, _)| *i);
-                let neighbour = behind(end);
-                let behind_prev = prev_end.and_then(behind);
-                for fid in [behind_prev, neighbour, Some(id), Some(prev), Some(ids[rng.usize_below(ids.len())])].into_iter().flatten() {
-                    let Some(&(o2, l2)) = img.addr.get(&fid) else { continue };
-                    handle.clear_log();
-                    ctx.evals += 1;
-                    let got = sut::get(&mut pm, fid, c.face)?;
-                    let a = h.data_offset + o2;
-                    let want = vec![(a, a + u64::from(l2))];
-                    let rs = handle.read_set();
-                    ensure!(rs == want, "C20:lookup-read-range-after-transient-fault", "after a transient failure while reading tile {id}, the lookup of tile {fid} read {:?}; the tile occupies {:?}", rs, want);
-                    ensure!(matches!(&got, Ok(Some(b)) if Some(b) == img.expected.get(&fid)), "C20:lookup-bytes-after-transient-fault", "after a transient failure while reading tile {id}, the lookup of tile {fid} returned the wrong bytes");
-                }
-            }
-        }
+        // a transient failure or a cancellation during one lookup must not disturb the lookups
+        // that follow: the disturbed call may fail, the next ones read exactly their own range
+        disturbed_lookups("C20", &mut pm, &handle, h.data_offset, &img.addr, &img.expected, &ids, c.face, &mut rng, 3, true, ctx)?;
         // a memory-backed tile needs no read at all
         let _ = pm.add_tile(1, vec![1u8, 2, 3]);
         handle.clear_log();
@@ -910,6 +880,77 @@ impl Scenario for LazyOpen {
         }
         out
     }
+}
+
+/// Lookups on reader-backed tiles disturbed by a fault that leaves the stream usable: one stream
+/// operation times out once (`Fault::Transient`), or — async face — the request is cancelled (its
+/// future dropped) at a `Pending` (`Fault::Stall`). The disturbed call may report an error or be
+/// cancelled, never return wrong bytes; every lookup that follows must return exactly the stored
+/// bytes (and, with `ranges`, read exactly the tile's own byte range). `ids` are the reader-backed
+/// ids that may be probed; `addr` maps them to (offset within tile data, length).
+#[allow(clippy::too_many_arguments)]
+pub fn disturbed_lookups(p: &str, pm: &mut Pm, handle: &SimDisk, data_offset: u64, addr: &BTreeMap<u64, (u64, u32)>, expected: &BTreeMap<u64, Vec<u8>>, ids: &[u64], face: Face, rng: &mut Rng, rounds: u32, ranges: bool, ctx: &mut Ctx) -> V<()> {
+    if ids.is_empty() {
+        return Ok(());
+    }
+    let mut first_at: std::collections::HashMap<u64, u64> = std::collections::HashMap::new();
+    for id in ids {
+        if let Some((o, _)) = addr.get(id) {
+            first_at.entry(*o).or_insert(*id);
+        }
+    }
+    let behind = |e: u64| first_at.get(&e).copied();
+    for round in 0..rounds {
+        // a successful lookup first: its end position is what a stale cursor cache would hold
+        let prev = ids[rng.usize_below(ids.len())];
+        let prev_end = addr.get(&prev).map(|(o, l)| o + u64::from(*l));
+        let _ = sut::get(pm, prev, face)?;
+        // the disturbed lookup: often the tile stored right behind the previous one
+        let id = match prev_end.and_then(behind) {
+            Some(n) if rng.chance(40) => n,
+            _ => ids[rng.usize_below(ids.len())],
+        };
+        let Some(&(off, len)) = addr.get(&id) else { continue };
+        let at = handle.nops() + rng.below(4);
+        let cancel = face == Face::Async && rng.chance(50);
+        let what = if cancel { "a cancelled request for" } else { "a transient failure while reading" };
+        let r = if cancel {
+            handle.set_fault(crate::disk::Fault::Stall { at });
+            let r = sut::get_cancel(pm, id, handle)?;
+            ctx.bump(if r.is_none() { "fired_cancellations" } else { "cancellations_not_reached" }, 1);
+            r
+        } else {
+            handle.set_fault(crate::disk::Fault::Transient { at, n: 1 + rng.below(2) });
+            let before = handle.stats().faults_fired;
+            let r = sut::get(pm, id, face)?;
+            // counted only when an operation of this call really timed out
+            ctx.bump(if handle.stats().faults_fired > before { "fired_transient_timeouts" } else { "transient_timeouts_not_reached" }, 1);
+            Some(r)
+        };
+        handle.set_fault(crate::disk::Fault::None);
+        match &r {
+            Some(Ok(Some(b))) => ensure!(Some(b) == expected.get(&id), format!("{p}:disturbed-lookup-wrong-bytes"), "lookup of tile {id} (round {round}, {what} it) returned the wrong bytes"),
+            Some(Ok(None)) => vio!(format!("{p}:disturbed-lookup-wrong-bytes"), "lookup of tile {id} (round {round}, {what} it) reported 'no such tile'"),
+            _ => {}
+        }
+        // follow-ups: the tiles stored right behind the previous and the disturbed one, both of
+        // those again, and one more
+        let end = off + u64::from(len);
+        for fid in [prev_end.and_then(behind), behind(end), Some(id), Some(prev), Some(ids[rng.usize_below(ids.len())])].into_iter().flatten() {
+            let Some(&(o2, l2)) = addr.get(&fid) else { continue };
+            handle.clear_log();
+            ctx.evals += 1;
+            let got = sut::get(pm, fid, face)?;
+            if ranges {
+                let a = data_offset + o2;
+                let want = vec![(a, a + u64::from(l2))];
+                let rs = handle.read_set();
+                ensure!(rs == want, format!("{p}:lookup-read-range-after-disturbed-lookup"), "after {what} tile {id}, the lookup of tile {fid} read {:?}; the tile occupies {:?}", rs, want);
+            }
+            ensure!(matches!(&got, Ok(Some(b)) if Some(b) == expected.get(&fid)), format!("{p}:lookup-bytes-after-disturbed-lookup"), "after {what} tile {id}, the lookup of tile {fid} returned {}", match &got { Ok(Some(b)) => format!("{} wrong bytes", b.len()), Ok(None) => "'no such tile'".into(), Err(e) => format!("an error: {e}") });
+        }
+    }
+    Ok(())
 }
 
 // ---------------------------------------------------------------------------------------------
